@@ -11,33 +11,58 @@ use std::task::Poll;
 use vnet::{Report, Rng};
 use zlink_core::Reply;
 
+/// What the state holds: a value the application cares about (`v`) and the ordinal of the `set` that stored
+/// it (`seq`, which only the oracle looks at). Two values are equal when their `v` is: a state that is set to the
+/// value it already has holds an *equal* value afterwards.
+#[derive(Debug, Clone, Copy)]
+pub struct Val {
+    pub v: u64,
+    pub seq: u64,
+}
+impl PartialEq for Val {
+    fn eq(&self, o: &Val) -> bool {
+        self.v == o.v
+    }
+}
+
+/// The value the `seq`-th set stores, under value pattern `pat`: 0 = all different, 1 = alternating between two
+/// values, 2 = always the same value, 3 = pairs (a, a, b, b, a, a, ...).
+pub fn vfun(pat: u8, seq: u64) -> u64 {
+    match pat {
+        0 => seq,
+        1 => seq % 2,
+        2 => 7,
+        _ => (seq / 2) % 2,
+    }
+}
+
 pub trait Notif {
     const NAME: &'static str;
     type State;
-    type Stream: Stream<Item = Reply<u64>> + Unpin;
+    type Stream: Stream<Item = Reply<Val>> + Unpin;
     type Once;
-    fn new(v: u64) -> Self::State;
-    fn set(s: &mut Self::State, v: u64);
-    fn get(s: &Self::State) -> u64;
+    fn new(v: Val) -> Self::State;
+    fn set(s: &mut Self::State, v: Val);
+    fn get(s: &Self::State) -> Val;
     fn stream(s: &Self::State) -> Self::Stream;
     fn clone_state(s: &Self::State) -> Self::State;
     fn once() -> (Self::Once, Self::Stream);
-    fn notify(o: Self::Once, v: u64);
+    fn notify(o: Self::Once, v: Val);
 }
 
 pub struct Tok;
 impl Notif for Tok {
     const NAME: &'static str = "tokio";
-    type State = zlink_tokio::notified::State<u64, u64>;
-    type Stream = zlink_tokio::notified::Stream<u64>;
-    type Once = zlink_tokio::notified::Once<u64>;
-    fn new(v: u64) -> Self::State {
+    type State = zlink_tokio::notified::State<Val, Val>;
+    type Stream = zlink_tokio::notified::Stream<Val>;
+    type Once = zlink_tokio::notified::Once<Val>;
+    fn new(v: Val) -> Self::State {
         zlink_tokio::notified::State::new(v)
     }
-    fn set(s: &mut Self::State, v: u64) {
+    fn set(s: &mut Self::State, v: Val) {
         vnet::block_on(s.set(v), 8).expect("State::set must not block");
     }
-    fn get(s: &Self::State) -> u64 {
+    fn get(s: &Self::State) -> Val {
         s.get()
     }
     fn stream(s: &Self::State) -> Self::Stream {
@@ -49,7 +74,7 @@ impl Notif for Tok {
     fn once() -> (Self::Once, Self::Stream) {
         zlink_tokio::notified::Once::new()
     }
-    fn notify(o: Self::Once, v: u64) {
+    fn notify(o: Self::Once, v: Val) {
         o.notify(v)
     }
 }
@@ -57,16 +82,16 @@ impl Notif for Tok {
 pub struct Smo;
 impl Notif for Smo {
     const NAME: &'static str = "smol";
-    type State = zlink_smol::notified::State<u64, u64>;
-    type Stream = zlink_smol::notified::Stream<u64>;
-    type Once = zlink_smol::notified::Once<u64>;
-    fn new(v: u64) -> Self::State {
+    type State = zlink_smol::notified::State<Val, Val>;
+    type Stream = zlink_smol::notified::Stream<Val>;
+    type Once = zlink_smol::notified::Once<Val>;
+    fn new(v: Val) -> Self::State {
         zlink_smol::notified::State::new(v)
     }
-    fn set(s: &mut Self::State, v: u64) {
+    fn set(s: &mut Self::State, v: Val) {
         vnet::block_on(s.set(v), 8).expect("State::set must not block");
     }
-    fn get(s: &Self::State) -> u64 {
+    fn get(s: &Self::State) -> Val {
         s.get()
     }
     fn stream(s: &Self::State) -> Self::Stream {
@@ -78,7 +103,7 @@ impl Notif for Smo {
     fn once() -> (Self::Once, Self::Stream) {
         zlink_smol::notified::Once::new()
     }
-    fn notify(o: Self::Once, v: u64) {
+    fn notify(o: Self::Once, v: Val) {
         o.notify(v)
     }
 }
@@ -136,13 +161,13 @@ fn op_from(v: &Value) -> Op {
 /// Execute the sequence on runtime crate `N`; operations that are impossible in the current
 /// situation (set through a dropped handle, poll of a subscriber that does not exist) are skipped.
 pub fn execute<N: Notif>(ops: &[Op]) -> Vec<Obs> {
-    execute_mode::<N>(ops, false)
+    execute_mode::<N>(ops, false, 0)
 }
 
 /// `wake`: every subscriber is a task of its own with its own waker; after its first poll it is polled
 /// again only if that waker has fired (what a runtime does), otherwise the poll is recorded as `NotWoken`.
-pub fn execute_mode<N: Notif>(ops: &[Op], wake: bool) -> Vec<Obs> {
-    let mut handles: Vec<Option<N::State>> = vec![Some(N::new(0)), None];
+pub fn execute_mode<N: Notif>(ops: &[Op], wake: bool, pat: u8) -> Vec<Obs> {
+    let mut handles: Vec<Option<N::State>> = vec![Some(N::new(Val { v: vfun(pat, 0), seq: 0 })), None];
     let mut subs: Vec<Option<N::Stream>> = Vec::new();
     let mut tasks: Vec<(std::sync::Arc<vnet::WakeFlag>, bool)> = Vec::new();
     let mut next = 1u64;
@@ -151,9 +176,10 @@ pub fn execute_mode<N: Notif>(ops: &[Op], wake: bool) -> Vec<Obs> {
         let o = match *op {
             Op::Set(h) => match handles.get_mut(h as usize).and_then(|x| x.as_mut()) {
                 Some(s) => {
-                    N::set(s, next);
+                    N::set(s, Val { v: vfun(pat, next), seq: next });
                     let got = N::get(s);
-                    let r = if got == next { Obs::Done } else { Obs::Item(got, None, false) };
+                    // the handle that was set holds a value equal to the one it was given
+                    let r = if got.v == vfun(pat, next) { Obs::Done } else { Obs::Item(got.seq, None, false) };
                     next += 1;
                     r
                 }
@@ -185,7 +211,12 @@ pub fn execute_mode<N: Notif>(ops: &[Op], wake: bool) -> Vec<Obs> {
                     match r {
                         Poll::Pending => Obs::Pending,
                         Poll::Ready(None) => Obs::End,
-                        Poll::Ready(Some(r)) => Obs::Item(r.parameters().copied().unwrap_or(u64::MAX), r.continues(), r.parameters().is_some()),
+                        Poll::Ready(Some(r)) => match r.parameters() {
+                            // an item whose value is not the one that set stored is reported as garbage
+                            Some(p) if p.v != vfun(pat, p.seq) => Obs::Item(u64::MAX - 1, r.continues(), true),
+                            Some(p) => Obs::Item(p.seq, r.continues(), true),
+                            None => Obs::Item(u64::MAX, r.continues(), false),
+                        },
                     }
                 }
                 None => Obs::Skipped,
@@ -223,7 +254,7 @@ pub fn execute_mode<N: Notif>(ops: &[Op], wake: bool) -> Vec<Obs> {
 }
 
 /// The oracle: returns (signature suffix, detail) for the first violation in the trace.
-pub fn judge(ops: &[Op], obs: &[Obs], stats: &mut Stats) -> Option<(String, String)> {
+pub fn judge(ops: &[Op], obs: &[Obs], stats: &mut Stats, pat: u8) -> Option<(String, String)> {
     struct SubSt {
         sub_at: u64,
         last: Option<u64>,
@@ -245,6 +276,9 @@ pub fn judge(ops: &[Op], obs: &[Obs], stats: &mut Stats) -> Option<(String, Stri
                 let alive = handles.iter().any(|h| *h);
                 let s = subs[i as usize].as_mut().unwrap();
                 let newest_since_sub = if latest > s.sub_at { Some(latest) } else { None };
+                // convergence is judged on the values: what the subscriber has seen last (or what the state held
+                // when it subscribed) against what the state was set to last
+                let caught_up = |s: &SubSt| vfun(pat, s.last.unwrap_or(s.sub_at)) == vfun(pat, latest);
                 match o {
                     Obs::Item(v, c, present) => {
                         stats.items += 1;
@@ -273,7 +307,7 @@ pub fn judge(ops: &[Op], obs: &[Obs], stats: &mut Stats) -> Option<(String, Stri
                     Obs::Pending => {
                         stats.pendings += 1;
                         if let Some(n) = newest_since_sub {
-                            if s.last != Some(n) && !s.ended {
+                            if !caught_up(s) && !s.ended {
                                 return Some(("poll-pending-although-a-newer-value-was-set".into(), format!("step {k}: subscriber {i} has seen {:?}, latest set since it subscribed is {n}", s.last)));
                             }
                         }
@@ -284,7 +318,7 @@ pub fn judge(ops: &[Op], obs: &[Obs], stats: &mut Stats) -> Option<(String, Stri
                     Obs::NotWoken => {
                         stats.not_woken += 1;
                         if let Some(n) = newest_since_sub {
-                            if s.last != Some(n) && !s.ended {
+                            if !caught_up(s) && !s.ended {
                                 return Some(("subscriber-not-woken-although-a-newer-value-was-set".into(), format!("step {k}: subscriber {i} returned Pending earlier, has seen {:?}, latest set since it subscribed is {n}, and its waker has not fired: a runtime would never poll it again", s.last)));
                             }
                         }
@@ -295,7 +329,7 @@ pub fn judge(ops: &[Op], obs: &[Obs], stats: &mut Stats) -> Option<(String, Stri
                             return Some(("subscription-ended-while-the-state-exists".into(), format!("step {k}: subscriber {i}")));
                         }
                         if let Some(n) = newest_since_sub {
-                            if s.last != Some(n) && !s.ended {
+                            if !caught_up(s) && !s.ended {
                                 return Some(("subscription-ended-before-delivering-the-most-recent-value".into(), format!("step {k}: subscriber {i} has seen {:?}, latest {n}", s.last)));
                             }
                         }
@@ -326,6 +360,8 @@ fn hash_ops(ops: &[Op]) -> u64 {
 fn check(ops: &[Op], rep: &mut Report, stats: &mut Stats) {
     rep.eval(hash_ops(ops));
     let replay = || json!({"monitor": "c20", "ops": ops.iter().map(op_json).collect::<Vec<_>>()});
+    // which values the sets store: all different, or (chosen by the sequence) alternating / constant / pairs
+    let pat = (hash_ops(ops) % 4) as u8;
     let t = vnet::catch(|| execute::<Tok>(ops));
     let s = vnet::catch(|| execute::<Smo>(ops));
     let mut traces = Vec::new();
@@ -333,7 +369,7 @@ fn check(ops: &[Op], rep: &mut Report, stats: &mut Stats) {
         match r {
             Err(p) => rep.violation(&format!("C20/{name}/panic"), format!("panic: {p}; ops {ops:?}"), replay()),
             Ok(obs) => {
-                if let Some((sig, detail)) = judge(ops, &obs, stats) {
+                if let Some((sig, detail)) = judge(ops, &obs, stats, 0) {
                     rep.violation(&format!("C20/{name}/{sig}"), format!("{detail}; ops {ops:?}; observed {obs:?}"), replay());
                 }
                 traces.push(obs);
@@ -342,12 +378,30 @@ fn check(ops: &[Op], rep: &mut Report, stats: &mut Stats) {
     }
     // the same sequence wake-driven: a subscriber that returned Pending is only polled again after its waker fired
     rep.evaluations += 1;
-    for (name, r) in [("tokio", vnet::catch(|| execute_mode::<Tok>(ops, true))), ("smol", vnet::catch(|| execute_mode::<Smo>(ops, true)))] {
+    for (name, r) in [("tokio", vnet::catch(|| execute_mode::<Tok>(ops, true, 0))), ("smol", vnet::catch(|| execute_mode::<Smo>(ops, true, 0)))] {
         match r {
             Err(p) => rep.violation(&format!("C20/{name}/panic"), format!("panic (wake-driven): {p}; ops {ops:?}"), replay()),
             Ok(obs) => {
-                if let Some((sig, detail)) = judge(ops, &obs, stats) {
+                if let Some((sig, detail)) = judge(ops, &obs, stats, 0) {
                     rep.violation(&format!("C20/{name}/{sig}"), format!("[wake-driven] {detail}; ops {ops:?}; observed {obs:?}"), replay());
+                }
+            }
+        }
+    }
+    // the same sequence with values that repeat (set to what the state already holds, set back to an earlier
+    // value through another handle): by the values, every subscriber still ends up with what was set last
+    if pat != 0 {
+        rep.evaluations += 1;
+        rep.count(&format!("sequences_with_repeating_values.pattern{pat}"));
+        for wake in [false, true] {
+            for (name, r) in [("tokio", vnet::catch(|| execute_mode::<Tok>(ops, wake, pat))), ("smol", vnet::catch(|| execute_mode::<Smo>(ops, wake, pat)))] {
+                match r {
+                    Err(p) => rep.violation(&format!("C20/{name}/panic"), format!("panic (values pattern {pat}): {p}; ops {ops:?}"), replay()),
+                    Ok(obs) => {
+                        if let Some((sig, detail)) = judge(ops, &obs, stats, pat) {
+                            rep.violation(&format!("C20/{name}/{sig}"), format!("[values pattern {pat}: the k-th set stores {:?}{}] {detail}; ops {ops:?}; observed {obs:?}", (0..6).map(|k| vfun(pat, k)).collect::<Vec<_>>(), if wake { ", wake-driven" } else { "" }), replay());
+                        }
+                    }
                 }
             }
         }
@@ -391,12 +445,12 @@ pub fn execute_once_mode<N: Notif>(ops: &[OOp], wake: bool) -> Vec<Obs> {
                 match r {
                     Poll::Pending => Obs::Pending,
                     Poll::Ready(None) => Obs::End,
-                    Poll::Ready(Some(r)) => Obs::Item(r.parameters().copied().unwrap_or(u64::MAX), r.continues(), r.parameters().is_some()),
+                    Poll::Ready(Some(r)) => Obs::Item(r.parameters().map(|p| p.v).unwrap_or(u64::MAX), r.continues(), r.parameters().is_some()),
                 }
             }
             OOp::Notify => match o.take() {
                 Some(x) => {
-                    N::notify(x, 77);
+                    N::notify(x, Val { v: 77, seq: 0 });
                     Obs::Done
                 }
                 None => Obs::Skipped,
